@@ -83,6 +83,123 @@ def facts():
     return rows
 
 
+def dynamic_facts():
+    """dynamic cross-check of the static table (DESIGN §4 "static first, dynamic second"): run update() of
+    every class × config on one valid batch under a line tracer restricted to the class's own methods;
+    after every executed line compare the object's state with the state before; every call of a function
+    whose name contains `check` (class module and the functional modules it imports) is logged.
+    Returns rows (class, config index, a check ran after the first observed state change, first-write line,
+    names of the checks that ran after it)."""
+    import sys, inspect, types
+    from ..common import Rng
+    from ..engine import snapshot, snap_equal
+    rows = []
+    for spec in SPECS:
+        for ci, c in enumerate(spec.configs):
+            cfg = fresh_cfg(c)
+            m = new_metric(spec, cfg)
+            rng = Rng(14 + ci)
+            try:
+                warm = spec.gen(rng, cfg, 3)
+                batch = spec.gen(rng, cfg, 3)
+            except Exception:  # noqa: BLE001
+                continue
+            codes = set()
+            for k in type(m).__mro__:
+                if k.__module__.startswith("torcheval") and k.__name__ != "Metric":
+                    for v in vars(k).values():
+                        f = getattr(v, "__wrapped__", v)
+                        if isinstance(f, types.FunctionType):
+                            codes.add(f.__code__)
+            events = []
+            # wrap the check helpers visible from the class module and from the functional modules it imports
+            mods = {sys.modules[type(m).__module__]}
+            for v in list(vars(sys.modules[type(m).__module__]).values()):
+                mod = getattr(v, "__module__", None)
+                if isinstance(v, types.FunctionType) and mod and mod.startswith("torcheval") and mod in sys.modules:
+                    mods.add(sys.modules[mod])
+            patched = []
+            def wrap(fn, name):
+                def w(*a, **kw):
+                    events.append(("check", name))
+                    return fn(*a, **kw)
+                return w
+            for mod in mods:
+                for name, v in list(vars(mod).items()):
+                    if isinstance(v, types.FunctionType) and "check" in name:
+                        patched.append((mod, name, v))
+                        setattr(mod, name, wrap(v, name))
+            try:
+                warm.apply(m)          # one valid update first: lazily shaped states exist afterwards
+                events.clear()
+                prev = [snapshot(m), {k: repr(v) for k, v in vars(m).items() if isinstance(v, (int, float, str, bool, type(None)))}]
+                def changed():
+                    cur = [snapshot(m), {k: repr(v) for k, v in vars(m).items() if isinstance(v, (int, float, str, bool, type(None)))}]
+                    if not snap_equal(prev[0], cur[0]) or prev[1] != cur[1]:
+                        prev[0], prev[1] = cur
+                        return True
+                    return False
+                def tracer(frame, event, arg):
+                    if frame.f_code not in codes:
+                        return None
+                    if event in ("line", "return"):
+                        sys.settrace(None)
+                        try:
+                            if changed():
+                                events.append(("write", frame.f_lineno))
+                        finally:
+                            sys.settrace(tracer)
+                    return tracer
+                for attempt in range(4):       # a valid batch may leave the state as it is (Max, retained top-k): try again
+                    events.clear()
+                    sys.settrace(tracer)
+                    try:
+                        batch.apply(m)
+                    finally:
+                        sys.settrace(None)
+                    if any(e[0] == "write" for e in events):
+                        break
+                    batch = spec.gen(rng, cfg, 5)
+            except Exception:  # noqa: BLE001
+                sys.settrace(None)
+                events = None
+            finally:
+                for mod, name, v in patched:
+                    setattr(mod, name, v)
+            if events is None:
+                continue
+            fw = next((i for i, e in enumerate(events) if e[0] == "write"), None)
+            later = [e[1] for e in events[fw + 1:] if e[0] == "check"] if fw is not None else []
+            rows.append((spec.name, ci, bool(later), events[fw][1] if fw is not None else None, later))
+    return rows
+
+
+def crosscheck(rep):
+    """static table vs observed order on valid updates: the static rule must not MISS a validation that runs
+    after a state write (soundness direction); a static `true` that no valid run exhibits is conservative."""
+    static = dict(facts())
+    dyn = dynamic_facts()
+    missed, confirmed, conservative = [], 0, set()
+    seen_true = {n for n, ci, late, _, _ in dyn if late}
+    for n, ci, late, line, names in dyn:
+        rep.case(nontrivial_key=("atomicity-dynamic", n, ci, late))
+        if late and not static.get(n, False):
+            missed.append((n, ci, line, names))
+        else:
+            confirmed += 1
+    for n, a in static.items():
+        if a and n not in seen_true:
+            conservative.add(n)
+    rep.count("atomicity-dynamic:runs", len(dyn))
+    rep.count("atomicity-dynamic:check-after-write", sum(1 for r in dyn if r[2]))
+    rep.notes.append(f"atomicity cross-check: {len(dyn)} traced update() runs, order of checks and first state write agrees with the static table in {confirmed}; "
+                     f"static `true` without an observed late check on a valid run (conservative): {sorted(conservative)}")
+    for n, ci, line, names in missed:
+        rep.broke("atomicity-translator", f"{n} (config {ci}): the check(s) {names} ran after the first state change (line {line}) "
+                                          f"but the static table says no validation follows a write", {"class": n, "config": ci, "line": line, "checks": names})
+    return dyn
+
+
 def generate(rep=None):
     rows = facts()
     out = ["/- GENERATED by harness/translators/atomicity.py from /repo's working tree — do not edit. -/",
